@@ -25,13 +25,14 @@ from vf.jv import enc, pointer_tokens
 R = ('example.com', 'v1', 'things')
 BODY = {'apiVersion': 'example.com/v1', 'kind': 'Thing',
         'metadata': {'name': 'o', 'namespace': 'ns', 'labels': {'l': 'v'}, 'finalizers': ['keep/me']},
-        'spec': {'a': 1, 'b': {'c': 2, 'd': 'x'}, 'l': [1, 2], 'e': {}, 'k/s~t': 'special'}}
+        'spec': {'a': 1, 'b': {'c': 2, 'd': 'x'}, 'l': [1, 2], 'e': {}, 'k/s~t': 'special', 'zero': False, 't': 0}}
 INSTRS = [None,
           {'spec': {'new': 'v'}}, {'spec': {'a': 2}}, {'spec': {'a': None}}, {'spec': {'b': {'c': 3, 'n': {'deep': True}}}},
           {'spec': {'b': None, 'z': {'y': {'x': 1}}}}, {'spec': {'l': [3]}}, {'spec': {'k/s~t': 'changed', 'q/r': {'~': 1}}},
           {'spec': {'b': 'scalar-now'}}, {'metadata': {'labels': {'l': None, 'm': 'n'}}}, {'spec': {'e': {'filled': 1}}},
           {'spec': {'a': {'mapping': 'over-scalar'}}}, {'spec': {'l': {'mapping': 'over-list'}}}, {'status': {'s': 1}},
-          {'spec': {'newmap': {'with': None, 'kept': 1}}}]
+          {'spec': {'newmap': {'with': None, 'kept': 1}}},
+          {'spec': {'a': True}}, {'spec': {'b': {'c': 2.5}}}, {'spec': {'t': False, 'zero': 0}}]       # type-only / falsy changes: 1 -> true is a change
 OUTCOMES = ['ok', 'adm', 'perm', 'temp', 'exc']
 
 
